@@ -88,6 +88,15 @@ func main() {
 			os.Exit(2)
 		}
 		os.Remove(progressPath)
+	case "tape":
+		// prints the recorded tape of one run (used to build replay files for
+		// findings made by another build of the worker, e.g. the race build)
+		t := sim.TapeOfRun(*prop, *tier, *seed, *start, known)
+		b, _ := json.Marshal(t)
+		if err := os.WriteFile(*out, b, 0o644); err != nil {
+			fmt.Fprintln(os.Stderr, "cosesim:", err)
+			os.Exit(2)
+		}
 	case "replay", "minimise":
 		b, err := os.ReadFile(*file)
 		if err != nil {
